@@ -1581,6 +1581,12 @@ class SchemaValidator:
                     return [f"{self._context(f'{path}.ref')}: {str(e)}"]
             else:
                 ref_type_details = copy.deepcopy(var_type_details)
+
+            if ref_type_details is None:
+                return [f"{self._context(f'{path}.ref')}: could not resolve object type"]
+
+            if not ref_type_details.is_list:
+                return [f"{self._context(f'{path}.ref')}: cannot traverse non-list object"]
         else:  # ref is not a variable, so it's a global or local ref
             local_input_error = [
                 f"{self._context(f'{path}.ref')}: cannot use field from local object as pipeline input"
